@@ -10,5 +10,6 @@ import (
 // VerifReadTiles exposes the feeder's tile reader (which maps a full-width tile to "no partial suffix")
 // to the verification harness (add-only shim, supplied through go build -overlay).
 func VerifReadTiles(c *client.SumDBClient, tiles []tlog.Tile) ([][]byte, error) {
-	return tileReader{c: c}.ReadTiles(tiles)
+	tr := &tileReader{c: c} // addressable: works whether the methods have value or pointer receivers
+	return tr.ReadTiles(tiles)
 }
